@@ -40,12 +40,12 @@ ASSUMPTIONS = [
 ]
 REQUIRED_CLASSES = {
     "all": ["inject=none", "inject=offdiag_h0", "inject=shared_energy", "inject=mask_degenerate", "inject=nonorthonormal",
-            "inject=asymmetric_mask", "inject=nonhermitian_sympy", "inject=exclusive_options", "inject=zero_diagonal",
+            "inject=asymmetric_mask", "inject=nonhermitian_sympy", "inject=exclusive_options", "inject=zero_diagonal", "inject=nonconserving_h0",
             "mode=nonhermitian", "lower-triangle-only"]
 }
 ALLOWED = (ValueError, TypeError, NotImplementedError)
 KINDS = ["none", "offdiag_h0", "offdiag_h0", "shared_energy", "shared_energy", "mask_degenerate", "nonorthonormal",
-         "asymmetric_mask", "nonhermitian_sympy", "exclusive_options", "zero_diagonal"]
+         "asymmetric_mask", "nonhermitian_sympy", "exclusive_options", "zero_diagonal", "nonconserving_h0"]
 
 
 def strategy(tier):
@@ -112,6 +112,40 @@ def check_case(case, enforce_all=False):
         return pairs[par["a"] % len(pairs)]
 
     ham = kwargs = None
+    if kind == "nonconserving_h0":
+        # second-quantised input whose unperturbed part does not conserve particle numbers
+        from sympy.physics.quantum import Dagger
+        from sympy.physics.quantum.boson import BosonOp
+        from sympy.physics.quantum.fermion import FermionOp
+
+        from pymablock.number_ordered_form import NumberOperator
+
+        a, f = BosonOp("a"), FermionOp("f")
+        bad = [a + Dagger(a), a**2 + Dagger(a) ** 2, f + Dagger(f), a * Dagger(f) + f * Dagger(a)][par["a"] % 4]
+        H0 = NumberOperator(a) + sympy.Rational(3, 2) * NumberOperator(f) + sympy.Rational(par["size"], 4) * bad
+        H1 = a * Dagger(f) + f * Dagger(a) + a + Dagger(a)
+        form = par["b"] % 3
+        try:
+            with warnings.catch_warnings():
+                warnings.simplefilter("ignore")
+                if form == 0:
+                    res = block_diagonalize([H0, H1])
+                elif form == 1:
+                    res = block_diagonalize([sympy.Matrix([[H0]]), sympy.Matrix([[H1]])])
+                else:
+                    res = block_diagonalize([sympy.Matrix([[H0, 0], [0, H0 + 7]]), sympy.Matrix([[0, H1], [H1, 0]])], subspace_indices=[0, 1])
+                for n in range(3):
+                    res[0][0, 0, n]
+                    res[1][0, 0, n]
+        except ALLOWED:
+            out.labels.append("rejected")
+            out.nontrivial = True
+            return out
+        except Exception as exc:  # noqa: BLE001
+            out.fail("wrong-exception-type", f"non-conserving H_0 = {H0}: {type(exc).__name__}: {str(exc)[:200]}")
+            return out
+        out.fail("accepted-ill-posed", f"a second-quantised H_0 that does not conserve particle numbers was accepted: {H0}")
+        return out
     if kind == "shared_energy":
         pr = pick_cross_pair()
         if pr is None:
